@@ -96,6 +96,29 @@ def welford_fails(vs, check_var=True):
     return None
 
 
+def sliding_fails(k, vs, every=1):
+    """SlidingWindowTracker in binary64 against the exact mean / variance of the last k values: |mean - exact| <= 8 k u max|window|
+    (a sum of k values), variance to 1e-9 relative to max|window|^2 — whatever passed through the window before."""
+    from ixai.utils.tracker import SlidingWindowTracker
+    t = SlidingWindowTracker(k)
+    for i, v in enumerate(vs):
+        t.update(v)
+        if (i + 1) % every and i + 1 != len(vs):
+            continue
+        last = vs[max(0, i + 1 - k):i + 1]
+        big = max(abs(x) for x in last)
+        m, var = exact_mean_var(last)
+        got_m, got_v, got_s = t.mean, t.var, t.std
+        if not (math.isfinite(got_m) and math.isfinite(got_v) and math.isfinite(got_s)):
+            return f"after {i + 1} finite values: mean/var/std = {got_m}/{got_v}/{got_s}"
+        if abs(Fraction(got_m) - m) > Fraction(8 * k * U) * Fraction(big) + Fraction(5e-324):
+            return (f"after {i + 1} values the window mean is {got_m!r}, the last {len(last)} values have mean {float(m)!r} "
+                    f"(error {float(abs(Fraction(got_m) - m)):.3e} > 8 k u max|v| = {8 * k * U * big:.3e})")
+        if abs(Fraction(got_v) - var) > Fraction(1e-9) * Fraction(big) ** 2 + Fraction(5e-324):
+            return f"after {i + 1} values the window variance is {got_v!r}, the last {len(last)} values have variance {float(var)!r}"
+    return None
+
+
 def es_fails(alpha, vs):
     from ixai.utils.tracker import ExponentialSmoothingTracker
     t = ExponentialSmoothingTracker(alpha)
@@ -361,6 +384,24 @@ def run(tier="quick", seed=0, replay=None):
             f = f"raised {core.err_kind(exn)}: {exn}"
         if f:
             chk.violation("explainer-float", f"{kind} (dynamic={dynamic}, seed {sd}): {f}", {"tracker": "explainer", "kind": kind, "dynamic": dynamic, "calls": T, "seed": sd})
+    # the third tracker: statistics of the last k values, on the same stream shapes and with huge values passing through the window
+    for r in range(12 if quick else 60):
+        n = rng.choice([50, 400, 3000] if quick else [50, 400, 3000, 20000])
+        k = rng.choice([1, 2, 5, 25])
+        shape, vs = gen_stream(rng, n)
+        if r % 3 == 0:
+            shape += "+outlier"
+            for _ in range(rng.randint(1, 3)):
+                vs[rng.randrange(n)] = rng.choice([1e17, -3e18, 1e12]) * max(1e-300, max(abs(v) for v in vs))
+        chk.case({"oracle": "sliding-window", "k": k, "shape": shape, "n": n, "first": vs[:3]}, nontrivial=n > k, sample=(r == 0))
+        chk.stat(f"sliding:{shape}")
+        try:
+            f = sliding_fails(k, vs, every=(1 if n <= 3000 else 7))
+        except Exception as exn:
+            f = f"raised {core.err_kind(exn)}: {exn}"
+        if f:
+            chk.violation("sliding-float", f"SlidingWindowTracker({k}) in float, {shape} stream of {n}: {f}",
+                          {"tracker": "sliding", "k": k, "vs_bits": [bits(v) for v in vs[:5000]], "n": n, "shape": shape})
     shapes = [(k, dyn, nf, mk, off) for k in ("pfi", "sage") for dyn in (True, False) for nf in (1, 2, 3) for mk in ("linear", "constant")
               for off in (0.0, 1e6)]
     for k, dyn, nf, mk, off in shapes:
@@ -405,6 +446,11 @@ def do_replay(chk, path):
         return 1
     if rp.get("tracker") == "explainer-surfaces":
         f = explainer_surfaces_fail(rp["kind"], rp["dynamic"], rp["features"], rp["model"], rp["offset"], rp["calls"], rp["seed"])
+        print(f"replay {path}: {'FAILS: ' + f if f else 'passes on the current tree'}")
+        return 1 if f else 0
+    if rp.get("tracker") == "sliding":
+        vs = [struct.unpack("<d", struct.pack("<Q", int(b)))[0] for b in rp["vs_bits"]]
+        f = sliding_fails(rp["k"], vs)
         print(f"replay {path}: {'FAILS: ' + f if f else 'passes on the current tree'}")
         return 1 if f else 0
     if "vs_bits" not in rp:
